@@ -44,6 +44,15 @@ NOT_APPLICABLE = {
  "C26": "needs the persistence feature, serde's data model and serde_json text (unbounded parsing loops) around a whole database",
 }
 
+# final wording of the claims (overrides the text in CLAIMED above)
+TEXT = {
+ "C01": "Partial: decides the local red-green kernel contract (soundness direction) for all symbolic revisions/durabilities within bounds: stamp recording of the executing query and its completion, shallow and hot-path verification, backdating guard and entry point, interned-read stamp, deep-verification arm dispatch (quick); complete memo verification over real dyn-dispatched input-field ingredients, the fetch fast path, input and tracked-struct field change tests (thorough). The end-to-end sentence (programs x histories through fetch/execute) is outside reach of the engine and is not claimed.",
+ "C09": "Soundness direction of the retention rule decided against a reference model for REVS 1..4 and histories of <= 6 recorded revisions: a value is judged stale only if REVS distinct later revisions were recorded and it is older than the oldest of them; reclaimable only if interned under LOW durability and collection is enabled; the LRU tail scan offers only stale slots not used in the current revision, under generation+1; revalidation keeps a value alive. (That old values ARE collected is not demanded by the property and not asserted.) The intern_id paths behind the hash lookup are outside the claim.",
+ "C15": "Partial: the iteration counter kernel is decided for all 2^16 stamps: a successful increment stays within 200, keeps the cancellation byte and compares greater; from the initial stamp at most 200 increments are admitted. Only the upper bound is asserted (a lower limit also satisfies the property). Recovery after the panic is not claimed.",
+ "C21": "Partial: CancellationToken state machine for all op sequences <= 4; nested disable guards restore the outer state and never lose a cancel(); cancelled-and-enabled makes the next check unwind; the token is reset exactly when the outermost attached scope returns (public attach API over a literal Storage). Other handles / waiter retry not claimed.",
+ "C02": "Durability bookkeeping decided for every runtime state satisfying the revision invariant (one inductive step) and for all write histories of <= 3 revisions; the setter reports the field's old durability and installs the new one; the durability shortcut of shallow and hot-path verification is sound over those histories; never-change writes (runtime, setter) panic in every state; edges are discarded only for never-change fully tracked memos. The public synthetic_write path through Storage::cancel_others is not decided (probe).",
+}
+
 # properties planned but not yet admitted (kept not-applicable until a check exists and passes)
 PENDING = {
 
@@ -62,6 +71,7 @@ def main():
     checks = []
     for pid in sorted(CLAIMED):
         cat, text, ref = CLAIMED[pid]
+        text = TEXT.get(pid, text)
         checks.append({
             "property_id": pid,
             "quick_cmd": "bin/verif %s --tier quick" % pid,
